@@ -143,6 +143,7 @@ proof fn lemma_echo_last_modified(m: SystemTime, now1: SystemTime, d: SystemTime
 {}
 //@endlemma
 
+//@auto_helpers src/serving.rs src/etag.rs rules=R22
 //@lits
 //@canary_false
 } // verus!
